@@ -22,7 +22,16 @@ PROFILES = [
     ("small", 12, 40, [1, 2, 3, 4, 5, 6, 0], [6, 6, 6, 4, 2, 2, 3]),
     ("long", 90, 300, [1, 2, 3, 4, 8, 17, 0], [6, 6, 4, 3, 2, 1, 2]),
     ("far", 14, (1 << 16) + 7, [1, 2, 3, 9, 33, 150, 0], [5, 4, 3, 2, 2, 1, 2]),
+    # a bulk prefix of fragments reaching just below a power of two (256, 1024, 4096, 8192), then ordinary
+    # operations: behaviour that changes past a size threshold (re-balancing, merging, another index)
+    ("bulk", 24, 0, [1, 2, 3, 4, 5, 6, 0], [6, 6, 4, 3, 2, 2, 2]),
 ]
+
+
+def _cells(model):
+    runs = model.fragments()
+    s = ",".join("%d-%d" % (b, e) for b, e in runs[:12])
+    return "[%s%s]" % (s, "" if len(runs) <= 12 else ", ... %d runs" % len(runs))
 
 
 def _short(b):
@@ -97,7 +106,7 @@ class FragmentsEngine(Engine):
     chunks = {"quick": 500, "thorough": 20000}
     rule = ("each case is a Chooser-generated history of 1..12 insert/append/extend/cursor-assignment operations on one Fragments "
             "object or two interleaved live ones (profile small: <=12 operations, positions 0..40, chunks 0..6 bytes; long: <=90 operations, "
-            "positions 0..300, chunks <=17; far: positions up to 2^16, chunks <=150; positions biased to the edges of existing fragments, "
+            "positions 0..300, chunks <=17; far: positions up to 2^16, chunks <=150; bulk (1 run in 56): a prefix of up to 8192 one-byte fragments ending just below 256/1024/4096/8192, then <=24 operations; positions biased to the edges of existing fragments, "
             "fill byte drawn), checked step by step against a sparse-array model; distinct = digest of the abstract "
             "operation list; non-trivial = at least two operations and at least one of them interacts with bytes "
             "already stored (collision, adjacency, hole fit, insert before an existing fragment, empty chunk)")
@@ -110,7 +119,7 @@ class FragmentsEngine(Engine):
     stub_components = []
     expected_probes = ["insert-before-first", "between-adjacent", "exact-fit-hole", "overlap-pred", "overlap-succ",
                        "overlap-both", "empty-at-occupied", "nonempty-over-earlier-empty", "op-after-failed-op",
-                       "backwards-insert", "extend-partial", "two-live-buffers", "cursor-assigned", "profile-long", "profile-far"]
+                       "backwards-insert", "extend-partial", "two-live-buffers", "cursor-assigned", "profile-long", "profile-far", "profile-bulk"]
 
     def init_worker(self, tree, wdir):
         import_fresh_bisturi(tree)
@@ -140,7 +149,7 @@ class FragmentsEngine(Engine):
         st = out.stats
         # one buffer, or (a quarter of the runs) two live buffers whose operations interleave: state
         # shared between Fragments objects must show as interference
-        self._prof = PROFILES[ch.weighted("profile", [8, 2, 1])]
+        self._prof = PROFILES[ch.weighted("profile", [40, 10, 5, 1])]
         st["probe:profile-" + self._prof[0]] += 1
         nbuf = 2 if ch.chance("two-buffers", 1, 4) else 1
         bufs = []
@@ -158,6 +167,30 @@ class FragmentsEngine(Engine):
         def violation(oracle, detail):
             out.violation = {"oracle": oracle, "actor": "", "detail": detail}
             ev("VIOLATION %s: %s" % (oracle, detail))
+
+        if self._prof[0] == "bulk":
+            import random as _random
+            target = [256, 1024, 4096, 8192][ch.weighted("bulk-threshold", [2, 2, 3, 1])] - ch.draw("bulk-short-by", 13)
+            layout = _random.Random(ch.draw("bulk-layout", 1 << 16))
+            f, model, uniq, _ = bufs[0]
+            pos = 0
+            for i in range(target):
+                if layout.random() < 0.35:
+                    pos += 1 + (layout.random() < 0.3)          # a hole of one or two bytes
+                b = uniq.take(1)
+                try:
+                    f.insert(pos, b)
+                except Exception as e:
+                    return self._finish(out, history, interacting, violation, "C11.raise-iff-occupied",
+                                        "bulk insert #%d at free position %d raised %s" % (i, pos, str(e)[:60]))
+                model.store(pos, b)
+                pos += 1
+            self._prof = self._prof[:2] + (pos + 4,) + self._prof[3:]
+            history.append(("bulk", target, pos))
+            ev("bulk: %d one-byte fragments up to position %d" % (target, pos))
+            st["probe:profile-bulk"] += 1
+            if f.tobytes() != model.render() or f.current_offset != pos:
+                return self._finish(out, history, interacting, violation, "C11.render", "after the bulk prefix the bytes or the cursor differ from the model")
 
         for step in range(nops):
             bi = ch.draw("buffer", nbuf)
@@ -237,7 +270,7 @@ class FragmentsEngine(Engine):
                 if not must_raise and (not any(not c for c in chunks) or not ok):
                     return self._finish(out, history, interacting, violation, "C11.raise-iff-occupied",
                                         "%s%r raised (%s) although no byte of the range is occupied; model cells=%r" % (
-                                            opdesc[0], opdesc[1:], str(raised)[:60], sorted(model.cells)))
+                                            opdesc[0], opdesc[1:], str(raised)[:60], _cells(model)))
                 if not ok:
                     return self._finish(out, history, interacting, violation, "C11.failed-op-intact",
                                         "after the failed %s%r tobytes()=%s, expected %s" % (opdesc[0], opdesc[1:], _short(after), _short(may_stop[-1].render())))
@@ -248,7 +281,7 @@ class FragmentsEngine(Engine):
                 if must_raise:
                     return self._finish(out, history, interacting, violation, "C11.raise-iff-occupied",
                                         "%s%r did not raise although a byte of the range is occupied; model cells=%r bytes now %r" % (
-                                            opdesc[0], opdesc[1:], sorted(model.cells), after))
+                                            opdesc[0], opdesc[1:], _cells(model), _short(after)))
                 model = m
                 total = sum(len(c) for c in chunks)
                 if total > 0 and cur_after != p + total:
